@@ -18,11 +18,24 @@ static void run_tuner(Json& js, vh::Rng& rng, long budget) {
         if (top) {
             fs = (int)rng.range(65537, 100000);
         }
-        const int b = (int)((rng.coin() || top) ? 1 : rng.range(2, 8));
-        const long M = (long)b * fs;
+        int b = (int)((rng.coin() || top) ? 1 : rng.range(2, 8));
+        long M = (long)b * fs;
         long a = rng.range(-(M / 2), M / 2);
         if (rng.range(0, 6) == 0) {
             a = (rng.coin() ? 1 : -1) * (M / 2);   // |f| = fs/2 exactly (when M is even)
+        }
+        if (rng.range(0, 2) == 0) {
+            // frequencies an implementation might treat specially: +-fs/4 (most often), +-fs/8, +-fs/3, +-fs/6, +-1 Hz, 0
+            static const int DEN[] = {4, 4, 4, 8, 3, 6};
+            const int dn = DEN[rng.range(0, 5)];
+            if (rng.range(0, 6) == 0) {
+                a = (long)b * (rng.range(0, 2) - 1);
+            } else {
+                if (M % dn != 0) {
+                    b = dn, M = (long)b * fs;   // f = fs/dn as the fraction fs / dn
+                }
+                a = (rng.coin() ? 1 : -1) * (M / dn);
+            }
         }
         const double f = (double)a / b;
         const long n = std::min<long>(400000, (long)fs * rng.range(2, 6) + rng.range(0, fs));   // several multiples of fs
